@@ -419,26 +419,84 @@ def run(chk, ctx):
     rel_i, owner, it_fn = ctx.model.generator("MixedCheckpointSchedule")
     chk.functions.add(f"mixed.{owner.name}._iterator")
     k = 0
+    tabs = {t.id for x in ast.walk(it_fn) if isinstance(x, ast.Assign) and isinstance(x.value, ast.Call)
+            and getattr(x.value.func, "id", None) == TAB for t in x.targets if isinstance(t, ast.Name)}
+    modfns = {f.name: f for f in repo.module(REL).tree.body if isinstance(f, ast.FunctionDef)}
+
+    def memo_arm(e):
+        """MEMO(a, b) or MEMO(a, b)[k] -> (args, projection)"""
+        if isinstance(e, ast.Subscript) and isinstance(e.slice, ast.Constant) and isinstance(e.slice.value, int):
+            inner = memo_arm(e.value)
+            return None if inner is None or inner[1] is not None else (inner[0], e.slice.value)
+        if isinstance(e, ast.Call) and getattr(e.func, "id", None) == MEMO and len(e.args) == 2 and not e.keywords:
+            return list(e.args), None
+        return None
+
+    def table_arm(e):
+        """T[a, b] / T[a, b, k] / T[a, b][k] / wrapper(T, a, b)[k] -> (args, projection, converted to StepType/int)"""
+        if isinstance(e, ast.Subscript) and isinstance(e.value, ast.Name) and e.value.id in tabs and isinstance(e.slice, ast.Tuple):
+            el = e.slice.elts
+            if len(el) == 2:
+                return list(el), None, False
+            if len(el) == 3 and isinstance(el[2], ast.Constant) and isinstance(el[2].value, int):
+                return list(el[:2]), el[2].value, False
+            return None
+        if isinstance(e, ast.Subscript) and isinstance(e.slice, ast.Constant) and isinstance(e.slice.value, int):
+            inner = table_arm(e.value)
+            return None if inner is None or inner[1] is not None else (inner[0], e.slice.value, inner[2])
+        if isinstance(e, ast.Call) and isinstance(e.func, ast.Name) and e.func.id in modfns and len(e.args) == 3 and not e.keywords \
+                and isinstance(e.args[0], ast.Name) and e.args[0].id in tabs:
+            w = modfns[e.func.id]
+            ps = [a.arg for a in w.args.args]
+            subs_ = [x for x in ast.walk(w) if isinstance(x, ast.Subscript) and isinstance(x.value, ast.Name) and x.value.id == ps[0]
+                     and isinstance(x.slice, ast.Tuple)] if len(ps) == 3 else []
+            if len(subs_) == 1 and [ast.unparse(x) for x in subs_[0].slice.elts] == ps[1:]:
+                conv = any(isinstance(x, ast.Call) and getattr(x.func, "id", None) == "StepType" for x in ast.walk(w))
+                return list(e.args[1:]), None, conv
+        return None
+    raw_names = []      # locals that hold an unconverted step-type entry of the table
     for n in sorted((x for x in ast.walk(it_fn) if isinstance(x, ast.If)), key=lambda x: x.lineno):
         if not (isinstance(n, ast.If) and len(n.body) == 1 and len(n.orelse) == 1
                 and isinstance(n.body[0], ast.Assign) and isinstance(n.orelse[0], ast.Assign)):
             continue
         a, b = n.body[0], n.orelse[0]
-        calls = [x for x in (a.value, b.value) if isinstance(x, ast.Call) and getattr(x.func, "id", None) == MEMO]
-        subs = [x for x in (a.value, b.value) if isinstance(x, ast.Subscript) and isinstance(x.slice, ast.Tuple)]
-        if len(calls) != 1 or len(subs) != 1:
+        ma = [(x, memo_arm(x.value)) for x in (a, b)]
+        ta = [(x, table_arm(x.value)) for x in (a, b)]
+        ma = [(x, v) for x, v in ma if v is not None]
+        ta = [(x, v) for x, v in ta if v is not None]
+        if len(ma) != 1 or len(ta) != 1 or ma[0][0] is ta[0][0]:
             continue
         cons = f"mixed.{owner.name}._iterator#selection[{k}]"
         k += 1
         pbd = PolyBuilder()
-        ca = [pkey(pbd.poly(x)) for x in calls[0].args]
-        sa = [pkey(pbd.poly(x)) for x in subs[0].slice.elts]
+        ca = [pkey(pbd.poly(x)) for x in ma[0][1][0]]
+        sa = [pkey(pbd.poly(x)) for x in ta[0][1][0]]
         same_args = ca == sa
+        same_proj = ma[0][1][1] == ta[0][1][1]
         same_tgt = ast.unparse(a.targets[0]) == ast.unparse(b.targets[0])
-        chk.decide("C16.ARMS", cons, True if (same_args and same_tgt) else False,
-                   f"memoised arm {ast.unparse(calls[0])[:90]} / table arm {ast.unparse(subs[0])[:90]}: "
-                   + ("equal arguments and targets" if same_args and same_tgt else
-                      ("arguments differ" if not same_args else "targets differ")), rel=rel_i, node=n)
+        chk.decide("C16.ARMS", cons, True if (same_args and same_tgt and same_proj) else False,
+                   f"memoised arm {ast.unparse(ma[0][0].value)[:90]} / table arm {ast.unparse(ta[0][0].value)[:90]}: "
+                   + ("equal arguments, components and targets" if same_args and same_tgt and same_proj else
+                      ("arguments differ" if not same_args else ("different components are selected" if not same_proj else "targets differ"))),
+                   rel=rel_i, node=n)
+        if not ta[0][1][2]:
+            tg = ta[0][0].targets[0]
+            if isinstance(tg, ast.Name) and ta[0][1][1] == 0:
+                raw_names.append((tg.id, ta[0][0]))
+            elif isinstance(tg, ast.Tuple) and ta[0][1][1] is None and tg.elts and isinstance(tg.elts[0], ast.Name):
+                raw_names.append((tg.elts[0].id, ta[0][0]))
+    # the table holds plain integers, the memoised planner returns StepType members: they agree under == / != (IntEnum),
+    # never under `is` / `is not`
+    for nm, site in raw_names:
+        for x in ast.walk(it_fn):
+            if isinstance(x, ast.Compare) and any(isinstance(o, (ast.Is, ast.IsNot)) for o in x.ops):
+                operands = [x.left] + list(x.comparators)
+                if any(isinstance(o, ast.Name) and o.id == nm for o in operands) \
+                        and not any(isinstance(o, ast.Constant) and o.value is None for o in operands):
+                    chk.decide("C16.ARMS", f"mixed.{owner.name}._iterator#identity[{nm}]", False,
+                               f"`{ast.unparse(x)}` compares by identity, but on the table arm `{nm}` is the raw table entry "
+                               f"`{ast.unparse(site.value)[:60]}` (a numpy integer), on the memoised arm a StepType member: the two "
+                               "arms take different branches", rel=rel_i, node=x)
     # second form: one local bound either to the memoised planner or to a nested function that looks the same
     # arguments up in the table; every consultation then passes one argument list to whichever is bound
     tables = {t.id for x in ast.walk(it_fn) if isinstance(x, ast.Assign) and isinstance(x.value, ast.Call)
